@@ -62,10 +62,10 @@ type Scenario struct {
 	FundAmount       string   `json:"fund_amount"`
 	OracleLifeBlocks uint64   `json:"oracle_life_blocks"`
 	OracleExpirySecs uint64   `json:"oracle_expiry_secs"`
-	VestBlocks       int64    `json:"vest_blocks"`       // Eden->ELYS vesting length in blocks
+	VestBlocks       int64    `json:"vest_blocks"` // Eden->ELYS vesting length in blocks
 	VestNowFactor    int64    `json:"vest_now_factor"`
 	MaxVestings      int64    `json:"max_vestings"`
-	ClaimedEden      string   `json:"claimed_eden"`      // initial claimed Eden/EdenB per user (ledger only)
+	ClaimedEden      string   `json:"claimed_eden"` // initial claimed Eden/EdenB per user (ledger only)
 }
 
 func DefaultScenario() Scenario {
@@ -84,25 +84,25 @@ func DefaultScenario() Scenario {
 
 // TxRecord is one transaction of a block with its outcome.
 type TxRecord struct {
-	Signer   string   `json:"signer"`
-	MsgType  string   `json:"msg_type"`
-	MsgJSON  string   `json:"msg"`
-	Fee      string   `json:"fee"`
-	Code     uint32   `json:"code"`
-	Log      string   `json:"log,omitempty"`
-	GasUsed  int64    `json:"gas_used"`
-	Bytes    []byte   `json:"-"`
-	Msg      sdk.Msg  `json:"-"`
-	Events   []abci.Event `json:"-"`
-	Data     []byte   `json:"-"`
+	Signer  string       `json:"signer"`
+	MsgType string       `json:"msg_type"`
+	MsgJSON string       `json:"msg"`
+	Fee     string       `json:"fee"`
+	Code    uint32       `json:"code"`
+	Log     string       `json:"log,omitempty"`
+	GasUsed int64        `json:"gas_used"`
+	Bytes   []byte       `json:"-"`
+	Msg     sdk.Msg      `json:"-"`
+	Events  []abci.Event `json:"-"`
+	Data    []byte       `json:"-"`
 }
 
 // BlockRecord is what happened in one committed block.
 type BlockRecord struct {
-	Height  int64      `json:"height"`
-	Time    time.Time  `json:"time"`
-	Txs     []TxRecord `json:"txs"`
-	AppHash []byte     `json:"app_hash"`
+	Height  int64        `json:"height"`
+	Time    time.Time    `json:"time"`
+	Txs     []TxRecord   `json:"txs"`
+	AppHash []byte       `json:"app_hash"`
 	Events  []abci.Event `json:"-"`
 }
 
@@ -115,7 +115,7 @@ type World struct {
 	Accounts []*Account // users
 	Feeder   *Account
 	Bot      *Account
-	Admin    *Account // pool creator; allowed pool creator
+	Admin    *Account   // pool creator; allowed pool creator
 	Sinks    []*Account // passive recipients: never sign, start empty
 	ByAddr   map[string]*Account
 	Height   int64
@@ -126,7 +126,7 @@ type World struct {
 	Blocks   []BlockRecord
 	homeDir  string
 	// BlockErr is set when FinalizeBlock/Commit returned an error or panicked.
-	BlockErr error
+	BlockErr      error
 	BlockErrStack string
 }
 
@@ -241,8 +241,8 @@ func (w *World) buildGenesis() ([]byte, []byte) {
 	sval := stakingtypes.Validator{
 		OperatorAddress: sdk.ValAddress(validator.Address).String(), ConsensusPubkey: pkAny,
 		Status: stakingtypes.Bonded, Tokens: bondAmt, DelegatorShares: sdkmath.LegacyOneDec(),
-		UnbondingTime: time.Unix(0, 0).UTC(),
-		Commission:    stakingtypes.NewCommission(sdkmath.LegacyNewDecWithPrec(5, 2), sdkmath.LegacyNewDecWithPrec(10, 2), sdkmath.LegacyNewDecWithPrec(10, 2)),
+		UnbondingTime:     time.Unix(0, 0).UTC(),
+		Commission:        stakingtypes.NewCommission(sdkmath.LegacyNewDecWithPrec(5, 2), sdkmath.LegacyNewDecWithPrec(10, 2), sdkmath.LegacyNewDecWithPrec(10, 2)),
 		MinSelfDelegation: sdkmath.OneInt(),
 	}
 	w.ValAddr = sdk.ValAddress(validator.Address).String()
